@@ -364,13 +364,26 @@ def r11_7(ctx: Ctx, rule: str = "R11.7") -> None:
 
 
 def _crc_handler_unlinks(es, node: ast.AST, broad: bool = False) -> bool:
-    want = {"Exception", "BaseException"} if broad else {"CrcError", "ArchiveError", "Exception", "BaseException"}
+    """the handler that TAKES the exception (the first one of the try, in order, whose class matches) removes the file and re-raises.  For
+    CrcError that is the first handler naming CrcError or a base class of it; for `broad` (any failure of a decoder) every handler up to and
+    including the first catch-all must do so - an `except CrcError: raise` in front of a cleaning `except Exception` lets the CRC mismatch
+    out with the file still there."""
+    crc_bases = {"CrcError", "ArchiveError", "Exception", "BaseException"}
+
+    def cleans(h) -> bool:
+        return any(isinstance(x, ast.Call) and attr_tail(x) in ("unlink", "remove") for x in ast.walk(h)) and bool(h.body) and isinstance(h.body[-1], ast.Raise)
     for t in [t for t in walk(es.node) if isinstance(t, ast.Try) and any(node is x for st in t.body for x in ast.walk(st))]:
         for h in t.handlers:
-            names = {x.id for x in ast.walk(h.type) if isinstance(x, ast.Name)} if h.type is not None else {"BaseException"}
-            if names & want and any(isinstance(x, ast.Call) and attr_tail(x) in ("unlink", "remove") for x in ast.walk(h)) \
-                    and h.body and isinstance(h.body[-1], ast.Raise):
-                return True
+            names = {x.id for x in ast.walk(h.type) if isinstance(x, ast.Name)} | {x.attr for x in ast.walk(h.type) if isinstance(x, ast.Attribute)} if h.type is not None else {"BaseException"}
+            if broad:
+                if not cleans(h):
+                    break
+                if names & {"Exception", "BaseException"}:
+                    return True
+            elif names & crc_bases:
+                if cleans(h):
+                    return True
+                break
     return False
 
 
